@@ -133,6 +133,12 @@ class Auth(object):
         if e:
             raise e
 
+        # the stored data must be exactly the salt followed by the digest.
+        # otherwise edited length parameters could leave nothing to compare
+        # (a zero length digest is equal to any other zero length digest)
+        if length < 16 or len(data) != salt_length + length:
+            raise ValueError("invalid password hash")
+
         salt = data[:salt_length]
         expected = data[salt_length:]
 
